@@ -374,37 +374,47 @@ def r55(e: Engine, rep: Report):
         rep.error('anchor vanished: stuffing trigger literal in DataSender')
 
 
-def r56(e: Engine, rep: Report):
+def _add_lines_graph(e: Engine):
     ctx = e.method_ctx(READER, 'add_lines')
     g = e.build(ctx, raises=lambda b, n, r: set(),
                 inline=e.inline_same_self(deny=[
                     'handle_finished_line', '_count_size', '_append_line']),
                 max_depth=3)
+    return ctx, g
+
+
+def _per_line_for(it, fn) -> bool:
+    """does a `for` over `it` (in function node fn) visit the terminated
+    lines of the piece, one per iteration?"""
+    if 'fullline_pattern' in ast.unparse(it):
+        return True
+    # the finished lines of `parts = piece.split(b'\n')` after the
+    # unfinished rest was popped off
+    if isinstance(it, ast.Name):
+        ds = [a.value for a in walk_own(fn) if isinstance(a, ast.Assign)
+              and any(isinstance(t, ast.Name) and t.id == it.id
+                      for t in a.targets)]
+        pops = [x for x in walk_own(fn) if isinstance(x, ast.Call) and
+                isinstance(x.func, ast.Attribute) and
+                x.func.attr == 'pop' and not x.args and
+                isinstance(x.func.value, ast.Name) and
+                x.func.value.id == it.id]
+        return len(ds) == 1 and len(pops) == 1 and \
+            isinstance(ds[0], ast.Call) and \
+            isinstance(ds[0].func, ast.Attribute) and \
+            ds[0].func.attr == 'split' and len(ds[0].args) == 1 and \
+            isinstance(ds[0].args[0], ast.Constant) and \
+            ds[0].args[0].value == b'\n'
+    return False
+
+
+def r56(e: Engine, rep: Report):
+    ctx, g = _add_lines_graph(e)
     where = ctx.func.qname
     rep.functions.add(where)
+
     def per_line(n):
-        it = n.ast.iter
-        if 'fullline_pattern' in ast.unparse(it):
-            return True
-        # the finished lines of `parts = piece.split(b'\n')` after the
-        # unfinished rest was popped off
-        if isinstance(it, ast.Name):
-            fn = n.frame.ctx.func.node
-            ds = [a.value for a in walk_own(fn) if isinstance(a, ast.Assign)
-                  and any(isinstance(t, ast.Name) and t.id == it.id
-                          for t in a.targets)]
-            pops = [x for x in walk_own(fn) if isinstance(x, ast.Call) and
-                    isinstance(x.func, ast.Attribute) and
-                    x.func.attr == 'pop' and not x.args and
-                    isinstance(x.func.value, ast.Name) and
-                    x.func.value.id == it.id]
-            return len(ds) == 1 and len(pops) == 1 and \
-                isinstance(ds[0], ast.Call) and \
-                isinstance(ds[0].func, ast.Attribute) and \
-                ds[0].func.attr == 'split' and len(ds[0].args) == 1 and \
-                isinstance(ds[0].args[0], ast.Constant) and \
-                ds[0].args[0].value == b'\n'
-        return False
+        return _per_line_for(n.ast.iter, n.frame.ctx.func.node)
     loops = [n for n in g.of_kind('iter') if isinstance(n.ast, ast.For) and
              per_line(n)]
     rep.evaluations += 1
@@ -857,6 +867,7 @@ def r512(e: Engine, rep: Report):
 def r513(e: Engine, rep: Report):
     rc = common.merged_class(e, READER)
     n = 0
+    _, g = _add_lines_graph(e)
     for mname, m in sorted(rc.methods.items()):
         for x in walk_own(m.node):
             if not (isinstance(x, ast.Call) and
@@ -874,7 +885,15 @@ def r513(e: Engine, rep: Report):
                 and ('finished' in ast.unparse(i.test) or
                      'match' in ast.unparse(i.test))
                 for i in walk_own(m.node))
-            rep.check(bool(loops) or guarded, 'R5.13', m.qname,
+            # a helper add_lines runs for each piece it cut: where the call
+            # ends up once the helper is read in place is what counts
+            inst = [nd for nd in g.nodes if nd.kind in ('call', 'call_enter')
+                    and nd.ast is x]
+            in_pass = bool(inst) and all(any(
+                sc.kind == 'loop' and isinstance(sc.ast, ast.For) and
+                _per_line_for(sc.ast.iter, sc.frame.ctx.func.node)
+                for sc in nd.scopes) for nd in inst)
+            rep.check(bool(loops) or guarded or in_pass, 'R5.13', m.qname,
                       'handle_finished_line only for terminated lines',
                       '%s calls handle_finished_line() outside the pass '
                       'over the complete lines of the piece: an '
